@@ -7,6 +7,8 @@ Proved (all summaries, all scope tables):
   basics/scope_hierarchy.py  UnitScopeHierarchyAnalysis.correct_scopes: a declaration is re-homed into scope S only if it was read from the block S designates for it
                     (class fields / methods / nested classes, method parameters, for/with initialisers) and, for class methods, only if it is a DIRECT child of the methods block
   lemma             on a chain of scopes in which every parent id is smaller than its child's id, the maximum id is the innermost scope
+  basics/stmt_def_use_analysis.py  add_status_with_symbol_id_sync: only the name of a `global` statement is looked up in the root scope alone; `nonlocal` names, ordinary
+                    definitions and every used name go through the lexical scope chain (obligations before each call of the resolver; generated in a sub-process over the C06 registry)
 Recorded finding (F5): the candidate set is (implicit roots | available) & declaring, so a declaration in a sibling top-level block is selected.
 """
 import ast
@@ -231,7 +233,21 @@ def chain_lemma(reg, tier):
     return [solve.discharge_fresh(VC(f'{PROPERTY}:lemma:on-an-ancestor-chain-the-maximum-scope-id-is-the-innermost-scope', hyps, depth(u) <= depth(t), kind='lemma'), 20000)]
 
 
-EXTRA_OBLIGATIONS = [chain_lemma]
+def defuse_scoping(reg, tier):
+    """global/nonlocal: which names are looked up in the root scope only (own process: it uses the C06 registry of the def-use analysis)"""
+    import json, os, subprocess, sys
+    here = os.path.dirname(os.path.abspath(__file__))
+    p = subprocess.run([sys.executable, os.path.join(here, 'c05_defuse.py'), '8000' if tier == 'quick' else '20000'], capture_output=True, text=True, timeout=1500, cwd=os.path.dirname(here))
+    lines = [l for l in p.stdout.splitlines() if l.startswith('{')]
+    if p.returncode != 0 or not lines:
+        raise RuntimeError('c05_defuse failed: ' + p.stderr[-500:])
+    d = json.loads(lines[-1])
+    if not d['results']:
+        raise RuntimeError('c05_defuse generated no obligation (the calls of resolve_symbol_source_decl were not found)')
+    return d['results']
+
+
+EXTRA_OBLIGATIONS = [chain_lemma, defuse_scoping]
 
 ASSUMPTIONS = [
     'NOT DECIDED: that scope discovery matches each source language (discover_scopes, hoisting, global/nonlocal, comprehension scopes), the import graph (organize_return_value, '
